@@ -642,7 +642,9 @@ class cst(exp):
     @_checkarg_numeric
     def __lshift__(self, n):
         if n._is_cst:
-            return cst(self.value << n.value, self.size)
+            if n.v >= self.size:
+                return cst(0, self.size)
+            return cst(self.value << n.v, self.size)
         else:
             return exp.__lshift__(self, n)
 
@@ -650,7 +652,7 @@ class cst(exp):
     def __rshift__(self, n):
         self.sf = False  # rshift implements logical right shift
         if n._is_cst:
-            return cst(self.value >> n.value, self.size)
+            return cst(self.value >> n.v, self.size)
         else:
             return exp.__rshift__(self, n)
 
@@ -658,7 +660,7 @@ class cst(exp):
     def __floordiv__(self, n):
         self.sf = True  # floordiv implements arithmetic right shift
         if n._is_cst:
-            return cst(self.value >> n.value, self.size)
+            return cst(self.value >> n.v, self.size)
         else:
             return exp.__floordiv__(self, n)
 
@@ -2177,6 +2179,9 @@ def eqn2_helpers(e, bitslice=False, widening=False):
             return composer(
                 [e.op(e.l[i : i + 1], e.r[i : i + 1]) for i in range(e.size)]
             )
+        # if e:= (l [>> <<] r) with r >= size then e:= 0
+        elif e.op.symbol in (OP_LSL, OP_LSR) and not (0 < e.r.value < e.l.size):
+            return cst(0, e.size)
         elif bitslice and e.op.symbol in (OP_LSL):
             return composer(
                 [bit0] * e.r.value
